@@ -107,6 +107,14 @@ class FlatLine(Case):
         ):
             for st, ft in ((120, 240), (60, 120), (240, 120)):
                 yield {"n": len(xs), "x": list(xs), "t": [1000 + 60 * i for i in range(len(xs))], "D": 60, "st": st, "ft": ft, "tol": tol, "keep": 1}
+        # infinite readings are invalid numbers like NaN: flagged MISSING and ignored by the windows around them
+        for xs in ([1, 1, 1, 1, 1, "inf", 1, 1, 1, 1, 1, 1], [1, 1, 1, "-inf", 1, 1, 1, 1], ["inf", 1, 1, 1, 1, "-inf"], [1, 1, None, 1, "inf", 1, 1, 1]):
+            for st, ft in ((120, 240), (60, 120)):
+                yield {"n": len(xs), "x": list(xs), "t": [1000 + 60 * i for i in range(len(xs))], "D": 60, "st": st, "ft": ft, "tol": H, "keep": 1}
+        # thresholds of a day and more on coarsely sampled series (a threshold is a number of seconds, however large)
+        for D, st, ft in ((21600, 86400, 172800), (3600, 90000, 180000), (43200, 86400, 86400 * 3)):
+            for xs in ([1] * 12, [1, 1, 1, 1, 2, 1, 1, 1, 1, 1, 1, 1], [1, 2] * 6):
+                yield {"n": len(xs), "x": list(xs), "t": [1000 + D * i for i in range(len(xs))], "D": D, "st": st, "ft": ft, "tol": H, "keep": 1}
 
 
 def cases():
